@@ -278,9 +278,13 @@ def write_replay(pid, name, payload):
     return path
 
 
-def write_evidence(pid, ev):
-    EVIDENCE.mkdir(exist_ok=True)
-    (EVIDENCE / f'{pid}.json').write_text(json.dumps(ev, indent=1, default=str))
+def write_evidence(pid, ev, scratch=False):
+    """evidence/<id>.json is rewritten by every registered run (quick / thorough on /repo); self-test runs
+    (--skip-proofs, --n, --replay, VERIF_REPO pointing at a scratch copy) write to evidence/scratch/ so that
+    they never replace the record of a real run."""
+    d = EVIDENCE / 'scratch' if scratch else EVIDENCE
+    d.mkdir(parents=True, exist_ok=True)
+    (d / f'{pid}.json').write_text(json.dumps(ev, indent=1, default=str))
 
 
 def check_batch(prop, modname, tag, cases, jobs):
@@ -480,7 +484,8 @@ def run_check(modname, argv):
     }
     if not proofs['ok']:
         ev['coverage']['proof_log_tail'] = proofs['log'][-1500:]
-    write_evidence(pid, ev)
+    write_evidence(pid, ev, scratch=bool(args.skip_proofs or getattr(args, 'n', None)
+                                         or os.environ.get('VERIF_REPO', '/repo') != '/repo'))
     for ln in lines:
         print(ln)
     print(f'[{pid}] tier={tier} seed={seed} theorems={n_thm} proofs_ok={proofs["ok"]} '
